@@ -4,6 +4,9 @@
 import ForsysModel.Model.SEParser
 import ForsysModel.Proofs.C09
 import Mathlib.Tactic.FieldSimp
+import Mathlib.Tactic.Linarith
+import Mathlib.Tactic.Ring
+import Mathlib.Algebra.Order.Field.Basic
 import Mathlib.Algebra.Order.Field.Rat
 import Mathlib.Algebra.BigOperators.Group.List.Basic
 
@@ -396,5 +399,55 @@ theorem dropFaceless_consP (used : List Id) (m : Mesh) (h : ConsP m)
     obtain ⟨q, hq, hj⟩ := hJ c hc ab hab
     exact ⟨q, (dropFaceless_edges used m q).mpr ⟨hq, hused q hq ⟨c, hc, ab, hab, hj⟩⟩, hj⟩
 
+/-! ### rounding -/
+
+theorem roundHalfEven_nearest' (q : Rat) : |((roundHalfEven q : Int) : Rat) - q| ≤ 1/2 := by
+  have h1 : ((q.floor : Int) : Rat) ≤ q := Rat.floor_le q
+  have h2 : q < ((q.floor : Int) : Rat) + 1 := by
+    have := Rat.lt_floor_add_one q; push_cast at this; exact this
+  unfold roundHalfEven
+  simp only
+  rw [abs_le]
+  split_ifs <;> push_cast <;> constructor <;> linarith
+
+theorem roundHalfEven_int' (z : Int) : roundHalfEven (z : Rat) = z := by
+  unfold roundHalfEven
+  simp only [Rat.floor_intCast, sub_self]
+  norm_num
+
+theorem roundHalfEven_tie_even' (z : Int) : roundHalfEven ((z : Rat) + 1/2) % 2 = 0 := by
+  have hf : ((z : Rat) + 1/2).floor = z := by
+    apply le_antisymm
+    · apply Int.le_of_lt_add_one
+      rw [Rat.floor_lt_iff]; push_cast; linarith
+    · rw [Rat.le_floor_iff]; linarith
+  unfold roundHalfEven
+  simp only [hf]
+  have : (z : Rat) + 1/2 - z = 1/2 := by ring
+  rw [this]
+  simp only [lt_irrefl, if_false]
+  split_ifs with h
+  · exact h
+  · omega
+
+theorem pow10_pos (n : Nat) : (0 : Rat) < (10 : Rat) ^ n := by positivity
+
+theorem roundDec_nearest' (q : Rat) (n : Nat) : |roundDec q n - q| ≤ 1 / (2 * (10 : Rat) ^ n) := by
+  unfold roundDec
+  have hp := pow10_pos n
+  have h := roundHalfEven_nearest' (q * (10 : Rat) ^ n)
+  have e : ((roundHalfEven (q * (10 : Rat) ^ n) : Int) : Rat) / (10 : Rat) ^ n - q
+      = (((roundHalfEven (q * (10 : Rat) ^ n) : Int) : Rat) - q * (10 : Rat) ^ n) / (10 : Rat) ^ n := by
+    field_simp
+  rw [e, abs_div, abs_of_pos hp, div_le_iff₀ hp]
+  calc _ ≤ 1/2 := h
+    _ = 1 / (2 * (10 : Rat) ^ n) * (10 : Rat) ^ n := by field_simp
+
+theorem roundDec_idempotent' (q : Rat) (n : Nat) : roundDec (roundDec q n) n = roundDec q n := by
+  unfold roundDec
+  have hp := (pow10_pos n).ne'
+  have : ((roundHalfEven (q * (10 : Rat) ^ n) : Rat) / (10 : Rat) ^ n * (10 : Rat) ^ n) = ((roundHalfEven (q * (10 : Rat) ^ n) : Int) : Rat) := by
+    field_simp
+  rw [this, roundHalfEven_int']
 end SE
 end Forsys
